@@ -425,7 +425,7 @@ Section P.
       + constructor.
       + exists []. split; [symmetry; apply app_nil_r|]. intros x [].
       + exists []. split; [symmetry; apply app_nil_r|]. split; [reflexivity|].
-        split; [|split]; intros _ x; try intros y; intros [].
+        split; [intros _ x y []|split; intros _ x []].
       + intros Ho Hd. congruence.
     - inversion ND as [|x l' Hnin ND']; subst.
       assert (Hin' : incl l agents) by (intros x Hx; apply Hin; right; exact Hx).
@@ -439,7 +439,7 @@ Section P.
         * injection H as <- <- <-.
           assert (Erest : filter (fun x => negb (memb x d)) l = []).
           { rewrite <- (filter_notin_snoc d a l Hnin).
-            apply (proj1 (all_in_spec _)) in Eall.
+            pose proof (proj1 (all_in_spec (d ++ [a])) Eall) as Eall'. clear Eall. rename Eall' into Eall.
             clear -Eall Hin'. induction l as [|y l IHl]; [reflexivity|]. simpl.
             assert (Hy : In y (d ++ [a])) by (apply Eall, Hin'; left; reflexivity).
             apply memb_In in Hy. rewrite Hy. simpl. apply IHl.
